@@ -80,6 +80,14 @@ def judge(Pr, Pe, rel, delta, unit, allp, from_ref, mode):
     est = common.make_traj([P[:3, :3] for P in Pe], [P[:3, 3] for P in Pe],
                            None, mode)
     pairs = select(Pr if from_ref else Pe, delta, unit, 0.1, allp)
+    # the pairs themselves must realise the delta (C10's predicate oracle,
+    # independent of evo's selector)
+    from mc.checks import c10
+    pm, _ = c10.judge_pairs(Pr if from_ref else Pe, delta, unit, 0.1, allp,
+                            pairs or [])
+    if pm:
+        return ["selected pairs do not realise the requested delta: " +
+                pm[0]], "pairs"
     m = run_rpe(ref, est, rel, delta, unit, allp, from_ref)
     if pairs is None:
         if m is not None:
